@@ -59,6 +59,8 @@ let dump_rule (r : rule) : string =
 let conns (l : n list) : string = if l = [] then "-" else String.concat "," (List.map (fun c -> string_of_int (int_of_n c)) l)
 
 let world = ref { w_mm = []; w_names = []; w_caps = [] }
+(* the same history on the INDEXED matchmaker (Match/Index.v); its answers are the model's answers *)
+let iworld = ref iworld_new
 let sworld = ref { sw_bus = []; sw_names = []; sw_caps = [] }
 let limit = ref (n_of_int 512)
 
@@ -84,6 +86,7 @@ let do_step (e : event) : string =
   sworld := sw;
   let sp = match so with
     | SOSignal l -> "S " ^ conns l
+    | SOOwn (code, l) -> Printf.sprintf "O%d %s" (int_of_n code) (conns l)
     | SOReply r -> "R " ^ sreply_s r
     | SODelivered l -> "D " ^ conns l
     | SOSignals l -> "G " ^ (if l = [] then "-" else String.concat ";" (List.map (fun (n, rc) -> hex_of_bytes n ^ ":" ^ conns rc) l)) in
@@ -99,20 +102,9 @@ let do_step (e : event) : string =
             | x :: xs -> if srule_eqb a x then Some xs else (match take xs with None -> None | Some ys -> Some (x :: ys)) in
           (match take ss with None -> false | Some ss' -> go rest ss') in
     go w.w_mm !sworld.sw_bus in
-  (match step !limit !world e with
-   | None -> "F"
-   | Some (w, o) ->
-      (* a disconnect also reports how many rules of OTHER connections the matchmaker dropped (x=<n>) *)
-      let extra = (match e with
-          | EvDisconnect c ->
-              let own = List.length (List.filter (fun r -> r.r_owner = c) !world.w_mm) in
-              Printf.sprintf " x=%d" (List.length !world.w_mm - List.length w.w_mm - own)
-          | _ -> "") in
-      world := w;
-      let extra = (match e with EvAdd _ | EvRemove _ | EvDisconnect _ -> extra ^ (if same_rules w then " st=1" else " st=0") | _ -> extra) in
-      (fun s -> s ^ extra)
-      (match o with
+  let out_s (o : output) = (match o with
        | OSignal l -> "S " ^ conns l
+       | OOwn (code, l) -> Printf.sprintf "O%d %s" (int_of_n code) (conns l)
        | OReply r -> "R " ^ reply_s r
        | ORouting RNotDispatched -> "N"
        | ORouting RNoOwner -> "U"
@@ -120,7 +112,31 @@ let do_step (e : event) : string =
        | ORouting RRejected -> "J"
        | ORouting RRefusedFds -> "K"
        | ORouting (RDelivered l) -> "D " ^ conns l
-       | OSignals l -> "G " ^ (if l = [] then "-" else String.concat ";" (List.map (fun (n, rc) -> hex_of_bytes n ^ ":" ^ conns rc) l))))
+       | OSignals l -> "G " ^ (if l = [] then "-" else String.concat ";" (List.map (fun (n, rc) -> hex_of_bytes n ^ ":" ^ conns rc) l))) in
+  (* the flat world runs alongside (it is what the specification comparison st= / x= looks at); ix=0 would mean the
+     two representations disagree, which Proofs/MatchIndex.v (C07_index_history) excludes *)
+  let flat = step !limit !world e in
+  (match istep !limit !iworld e with
+   | None -> "F"
+   | Some (iw, io) ->
+      iworld := iw;
+      let ix = (match flat with
+          | Some (w, o) ->
+              let n_all = List.length (all_rules iw.w_mm) in
+              if out_s o = out_s io && n_all = List.length w.w_mm then "" else " ix=0"
+          | None -> " ix=0") in
+      (match flat with
+       | None -> out_s io ^ ix
+       | Some (w, _) ->
+          (* a disconnect also reports how many rules of OTHER connections the matchmaker dropped (x=<n>) *)
+          let extra = (match e with
+              | EvDisconnect c ->
+                  let own = List.length (List.filter (fun r -> r.r_owner = c) !world.w_mm) in
+                  Printf.sprintf " x=%d" (List.length !world.w_mm - List.length w.w_mm - own)
+              | _ -> "") in
+          world := w;
+          let extra = (match e with EvAdd _ | EvRemove _ | EvDisconnect _ -> extra ^ (if same_rules w then " st=1" else " st=0") | _ -> extra) in
+          out_s io ^ extra ^ ix))
   ^ " | " ^ sp ^ cl
 
 let handlers : (string, string list -> string) Hashtbl.t = Hashtbl.create 64
@@ -160,7 +176,7 @@ let () =
       Printf.sprintf "%s | %s %s" ms ss (if ca = "-" then cb else if cb = "-" then ca else ca ^ "," ^ cb));
   reg "uint" (fun [h] -> match parse_uint (bytes_of_hex h) with
       | None -> "-" | Some (v, e) -> string_of_n v ^ " " ^ string_of_int (int_of_n e));
-  reg "reset" (fun [l] -> world := { w_mm = []; w_names = []; w_caps = [] }; sworld := { sw_bus = []; sw_names = []; sw_caps = [] };
+  reg "reset" (fun [l] -> world := { w_mm = []; w_names = []; w_caps = [] }; iworld := iworld_new; sworld := { sw_bus = []; sw_names = []; sw_caps = [] };
                 limit := n_of_int (int_of_string l); "ok");
   (* hello <conn> <unique> [fd]: "fd" = the connection negotiated NEGOTIATE_UNIX_FD *)
   reg "hello" (fun (c :: u :: rest) -> do_step (EvHello (n_of_int (int_of_string c), bytes_of_hex u, rest = ["fd"])));
@@ -171,4 +187,5 @@ let () =
   reg "send" (fun (c :: mf) ->
       let nfds = (match mf with [_; _; _; _; _; a] -> List.length (List.filter (fun x -> x = "h") (String.split_on_char ',' a)) | _ -> 0) in
       do_step (EvSend (n_of_int (int_of_string c), msg_of mf, n_of_int nfds)));
+  reg "release" (fun [c; u] -> do_step (EvRelease (n_of_int (int_of_string c), bytes_of_hex u)));
   reg "disc" (fun [c] -> do_step (EvDisconnect (n_of_int (int_of_string c))))
